@@ -16,8 +16,8 @@ from concurrent.futures import ThreadPoolExecutor
 from pvm import build
 
 VERIF = build.VERIF
-EVID = os.path.join(VERIF, "evidence")
-REPLAY = os.path.join(VERIF, "replay")
+EVID = os.environ.get("VERIF_EVIDENCE_DIR") or os.path.join(VERIF, "evidence")
+REPLAY = os.environ.get("VERIF_REPLAY_DIR") or os.path.join(VERIF, "replay")
 KNOWN = os.path.join(VERIF, "known_findings.json")
 NCPU = min(16, os.cpu_count() or 4)
 
